@@ -1,7 +1,7 @@
 """C15 - string big-number arithmetic equals integer arithmetic (DESIGN.md section 4, C15)."""
 import numpy as np
 
-from vlib import clock, contracts, graphs as G
+from vlib import clock, contracts, gens, graphs as G
 from vlib.base import import_dsw
 from vlib.coding import monitored
 
@@ -133,7 +133,7 @@ def generate(ctx):
     ctx.exhausted[EXHAUSTIVE[0]] = True
     max_len = 1300
     for _ in range(ctx.pick(250, 2500)):
-        kind = rng.choice(["random", "nines", "tenpow", "tenpow+d", "runs", "chain", "chain", "longchain", "machine"])
+        kind = rng.choice(["random", "nines", "tenpow", "tenpow+d", "runs", "chain", "chain", "longchain", "machine", "limbs", "limbs", "limbs"])
         n = rng.choice([1, 2, 3, 5, 17, 18, 19, 20, 21, 40, 100, 300, rng.randint(1, max_len)])
         if kind == "random":
             s = str(rng.randint(1, 9)) + "".join(rng.choice("0123456789") for _ in range(n - 1))
@@ -148,6 +148,8 @@ def generate(ctx):
             while len(s) < n:
                 s += rng.choice("09") * rng.randint(1, 7)
             s = (rng.choice("123456789") + s)[:max(n, 1)]
+        elif kind == "limbs":
+            s = gens.limb_number(rng)
         elif kind == "machine":   # neighbourhoods of machine-word and float-mantissa limits
             base = rng.choice([2 ** 31, 2 ** 32, 2 ** 53, 2 ** 63, 2 ** 64, 10 ** 9, 10 ** 15, 10 ** 16, 10 ** 17, 10 ** 18, 10 ** 19, 10 ** 20])
             s = str(max(0, base * rng.choice([1, 1, 1, 2, 5, 9]) + rng.randint(-12, 12)))
@@ -159,6 +161,10 @@ def generate(ctx):
             c = rng.randint(1001, 1290)
             s = rng.choice("12345678") + rng.choice("09") * c + rng.choice("0123456789")
         yield "numbers", dict(s=s, kind=kind)
+    for _ in range(ctx.pick(20, 200)):
+        yield "poison", dict(bad=rng.choice(["12.5", "-5", "1,000,000", "1e6", "0x1F", " 42", "4 2", "abc", "", "12a4", "１２"]),
+                             good=[gens.limb_number(rng, 3) if rng.random() < 0.5 else str(rng.randrange(10 ** rng.randint(1, 30))) for _ in range(4)],
+                             op=rng.choice(OPS), b=str(rng.randint(0, 9)))
     for _ in range(ctx.pick(6, 40)):
         yield "via_coding", dict(k=rng.choice([1, 2, 3]), bits=[rng.randint(0, 1) for _ in range(rng.choice([16, 64, 200]))],
                                  start=0)
@@ -210,6 +216,22 @@ def check_one(ctx, case):
     _call(ctx, import_dsw(), case["op"], case["number"], case["base"])
 
 
+def check_poison(ctx, case):
+    """A call with text that is not a decimal number (whatever it does - the property does not say) must not disturb the
+    valid calls that follow it."""
+    dsw = import_dsw()
+    fn = {"add": dsw.calculus_addition, "sub": dsw.calculus_subtraction, "mul": dsw.calculus_multiplication,
+          "div": dsw.calculus_division}[case["op"]]
+    try:
+        fn(case["bad"], case["b"])
+    except Exception:  # noqa - outside the property
+        pass
+    for g in case["good"]:
+        for op in OPS:
+            _call(ctx, dsw, op, g, case["b"])
+    ctx.cls("valid calls after a call with malformed text")
+
+
 def check_via_coding(ctx, case):
     """The contracts also guard the helpers' internal use by encode/decode."""
     dsw = import_dsw()
@@ -241,7 +263,7 @@ def check_repo_tests(ctx, case):
     ctx.done("repo_tests", case, n > 0)
 
 
-CHECKS = {"repo_tests": check_repo_tests, "block": check_block, "numbers": check_numbers, "one": check_one, "via_coding": check_via_coding}
+CHECKS = {"repo_tests": check_repo_tests, "poison": check_poison, "block": check_block, "numbers": check_numbers, "one": check_one, "via_coding": check_via_coding}
 
 
 def reachable_states():
@@ -269,6 +291,9 @@ def floors(agg, tier):
         missing = [n for n in range(0, 21) if c.get("%s|chain %d" % (op, n), 0) == 0]
         if missing:
             out.append("%s: carry/borrow chain lengths never exercised: %s" % (op, missing))
+    for name, need in (("kind|limbs", 50), ("valid calls after a call with malformed text", 100)):
+        if c.get(name, 0) < need:
+            out.append("%s observed %d < %d" % (name, c.get(name, 0), need))
     for op in ("add", "sub"):
         if c.get("%s|chain >1000" % op, 0) == 0:
             out.append("%s: no chain longer than 1000" % op)
